@@ -7,6 +7,7 @@
   and pyarrow are compared by the correspondence check, not proved.
 -/
 import SkyllhModel.Model.Load
+import SkyllhModel.Model.LoadI3
 import SkyllhModel.Proofs.Load
 import SkyllhModel.Proofs.LoadRename
 import SkyllhModel.Generated.C17
@@ -419,7 +420,56 @@ theorem c17_csv_empty_selection (f8 : D) (fs : P → Option (File N D V)) (p : P
     csvLoadFile castCopy cast f8 fs p o = .error .noColumns := by
   simp [csvLoadFile, openFile, h, hsel]
 
+/-! ### pickle files -/
+
+omit [DecidableEq N] [DecidableEq D] in
+/-- **pkl: one object per listed file, in listed order** (all keyword arguments are ignored) -/
+theorem c17_pkl_objects_in_order {O : Type} (fs : P → Option O) (obj : P → O) (paths : List P)
+    (h : ∀ p ∈ paths, fs p = some (obj p)) : pklObjects fs paths = .ok (paths.map obj) := by
+  induction paths with
+  | nil => rfl
+  | cons p ps ih =>
+    simp [pklObjects, h p (by simp), ih (fun q hq => h q (by simp [hq]))]
+
+omit [DecidableEq N] [DecidableEq D] in
+/-- the object itself for exactly one file, the list of objects (in listed order) otherwise -/
+theorem c17_pkl_one_or_many {O : Type} (fs : P → Option O) (obj : P → O) (paths : List P)
+    (h : ∀ p ∈ paths, fs p = some (obj p)) :
+    pklLoad fs paths = match paths with
+      | [p] => .ok (.one (obj p))
+      | ps => .ok (.many (ps.map obj)) := by
+  unfold pklLoad
+  rw [c17_pkl_objects_in_order fs obj paths h]
+  match paths with
+  | [] => rfl
+  | [p] => rfl
+  | p :: q :: ps => rfl
+
+omit [DecidableEq N] [DecidableEq D] in
+/-- a missing pkl file is an error, wherever it is in the list -/
+theorem c17_pkl_missing_is_error {O : Type} (fs : P → Option O) (paths : List P) (q : P) (hq : q ∈ paths)
+    (hmiss : fs q = none) : pklLoad fs paths = .error .fileMissing := by
+  have : pklObjects fs paths = .error .fileMissing := by
+    induction paths with
+    | nil => simp at hq
+    | cons p ps ih =>
+      simp only [pklObjects]
+      cases hp : fs p with
+      | none => rfl
+      | some o =>
+        rcases List.mem_cons.mp hq with rfl | hq'
+        · rw [hmiss] at hp; cases hp
+        · simp [ih hq']
+  simp [pklLoad, this]
+
 /-! ### missing file -/
+
+/-- the first listed file missing: exactly the "file does not exist" error, in both modes -/
+theorem c17_missing_first_file (mode : Mode) (fs : P → Option (File N D V)) (bs : Nat) (p : P) (ps : List P)
+    (o : Opts N D) (h : fs p = none) :
+    npyLoad castCopy castAssign cast promote mode fs bs (p :: ps) o = .error .fileMissing := by
+  cases mode <;> simp [npyLoad, loadFile, loadFileTime, loadFileMem, openFile, h]
+
 
 theorem C17.appendAll_error (load : P → Except Err (Arr N D V)) (ps : List P) (q : P) (hq : q ∈ ps)
     (e : Err) (h : load q = .error e) (a : Arr N D V) :
@@ -1198,6 +1248,232 @@ example : loadAndPrepare (N := Nat) (D := Nat) (V := Nat) (P := Nat) ⟨1, 2, 4,
 example : C17.origOf [((5 : Nat), 0)] 0 = 5 := by decide
 
 end endtoend
+
+/-! ### IceCube data sets: good-run list (skyllh/i3/dataset.py) -/
+
+section i3
+set_option linter.unusedSectionVars false
+set_option linter.unusedSimpArgs false
+variable {N D V P : Type} [DecidableEq N] [DecidableEq D]
+variable (ops : I3Ops D V) (nm : I3Names N)
+
+omit [DecidableEq N] [DecidableEq D] in
+theorem C17.zipWith_or_false (mask : List Bool) (times : List V) (hlen : mask.length = times.length) :
+    List.zipWith (fun m (_ : V) => m || false) mask times = mask := by
+  induction mask generalizing times with
+  | nil => simp
+  | cons m ms ih =>
+    cases times with
+    | nil => simp at hlen
+    | cons t ts =>
+      simp only [List.zipWith_cons_cons, Bool.or_false, List.cons.injEq, true_and]
+      have := ih ts (by simpa using hlen)
+      simpa using this
+
+theorem C17.timeMaskGo_eq (times : List V) (ivs : List (V × V)) (mask : List Bool)
+    (hlen : mask.length = times.length) :
+    timeMaskGo ops times ivs mask =
+      List.zipWith (fun m t => m || ivs.any (fun p => ops.le p.1 t && ops.le t p.2)) mask times := by
+  induction ivs generalizing mask with
+  | nil =>
+    simp only [timeMaskGo, List.any_nil]
+    exact (C17.zipWith_or_false mask times hlen).symm
+  | cons iv rest ih =>
+    obtain ⟨s, e⟩ := iv
+    simp only [timeMaskGo]
+    rw [ih _ (by simp [hlen])]
+    clear ih
+    induction mask generalizing times with
+    | nil => simp
+    | cons m ms ihm =>
+      cases times with
+      | nil => simp at hlen
+      | cons t ts =>
+        simp only [List.zipWith_cons_cons, List.any_cons, List.cons.injEq]
+        refine ⟨by cases m <;> simp [Bool.or_assoc], ihm ts (by simpa using hlen)⟩
+
+/-- **On-time selection**: the mask built by the loop over the good-run list marks exactly the events
+whose time lies in the closed window `[start, stop]` of at least one entry of the list. -/
+theorem c17_i3_time_mask (times : List V) (ivs : List (V × V)) :
+    timeMask ops times ivs =
+      times.map (fun t => ivs.any (fun p => ops.le p.1 t && ops.le t p.2)) := by
+  unfold timeMask
+  rw [C17.timeMaskGo_eq ops times ivs _ (by simp)]
+  induction times with
+  | nil => rfl
+  | cons t ts ih =>
+    simp only [List.map_cons, List.zipWith_cons_cons, Bool.false_or, List.cons.injEq, true_and]
+    exact ih
+
+/-- **Run selection**: an event is kept iff its run number occurs in the good-run list. -/
+theorem c17_i3_run_mask (expRun grlRun : List V) (k : Nat) :
+    (runMask ops expRun grlRun)[k]? = (expRun[k]?).map (fun r => grlRun.any (fun g => ops.eqv r g)) := by
+  simp [runMask]
+
+omit [DecidableEq N] [DecidableEq D] in
+/-- **Row selection keeps the rows aligned, once, in order**: selecting a column with a mask that was
+computed row by row gives the projection of the *filtered list of rows* — the same rows for every
+column, each at most once, in the original order. -/
+theorem c17_i3_select_is_filter {R : Type} (rows : List R) (pred : R → Bool) (proj : R → V) :
+    maskCells (rows.map pred) (rows.map proj) = (rows.filter pred).map proj := by
+  unfold maskCells
+  induction rows with
+  | nil => rfl
+  | cons r rs ih =>
+    cases hp : pred r with
+    | true => simp [List.filter_cons, hp] at ih ⊢; exact ih
+    | false => simp [List.filter_cons, hp] at ih ⊢; exact ih
+
+omit [DecidableEq N] [DecidableEq D] in
+/-- the selected cells are a sub-sequence of the column (no row duplicated or moved) -/
+theorem c17_i3_select_sublist (mask : List Bool) (cells : List V) : (maskCells mask cells).Sublist cells := by
+  unfold maskCells
+  induction cells generalizing mask with
+  | nil => simp
+  | cons c cs ih =>
+    cases mask with
+    | nil => simp
+    | cons m ms =>
+      cases m with
+      | true => simpa [List.filter_cons] using (ih ms).cons_cons c
+      | false => simpa [List.filter_cons] using (ih ms).cons c
+
+omit [DecidableEq N] [DecidableEq D] in
+/-- a mask without a false entry selects everything (`if np.any(~mask)` may skip the selection) -/
+theorem C17.maskCells_all_true (mask : List Bool) (cells : List V) (hlen : mask.length = cells.length)
+    (hall : mask.all id = true) : maskCells mask cells = cells := by
+  unfold maskCells
+  induction cells generalizing mask with
+  | nil => simp
+  | cons c cs ih =>
+    cases mask with
+    | nil => simp at hlen
+    | cons m ms =>
+      simp only [List.all_cons, id, Bool.and_eq_true] at hall
+      obtain ⟨hm, hms⟩ := hall
+      subst hm
+      simp [List.filter_cons, ih ms (by simpa using hlen) hms]
+
+/-- **Live time**: a given live time is used as it is; … -/
+theorem c17_i3_livetime_given (v : V) (grl : Option (Arr N D V)) :
+    i3Livetime ops nm (some v) grl = .ok (some v) := by
+  cases grl <;> rfl
+
+/-- … without one, the live time is the sum of the `livetime` column of the good-run list, … -/
+theorem c17_i3_livetime_from_grl (g : Arr N D V) (lt : List V) (h : cellsOf g nm.livetime = some lt) :
+    i3Livetime ops nm none (some g) = .ok (some (ops.sum lt)) := by
+  simp [i3Livetime, h]
+
+/-- … or, if the list has no such column, the sum of `stop - start`; -/
+theorem c17_i3_livetime_from_windows (g : Arr N D V) (s e : List V) (h : cellsOf g nm.livetime = none)
+    (hs : cellsOf g nm.start = some s) (he : cellsOf g nm.stop = some e) :
+    i3Livetime ops nm none (some g) = .ok (some (ops.sum (List.zipWith (fun a b => ops.sub b a) s e))) := by
+  simp [i3Livetime, h, hs, he]
+
+/-- without a good-run list every event stays (identity preparation, experimental data only):
+`prepare_data` only adds `sin_dec` -/
+theorem c17_i3_all_rows_without_grl (a a' : Arr N D V) (lt : Option V)
+    (h : addSin ops nm.dec nm.sinDec a = .ok a') :
+    i3Prepare ops nm (fun d => .ok d) (some a, none) none lt = .ok ((some a', none), lt) := by
+  cases lt <;> simp [i3Prepare, i3Livetime, h]
+
+variable (st : Stages) (loader : List P → Opts N D → Except Err (Arr N D V))
+  (prep : Option (Arr N D V) × Option (Arr N D V) → Except Err (Option (Arr N D V) × Option (Arr N D V)))
+
+/-- **Required fields and a live time are there** whenever `load_and_prepare_data` of an IceCube data
+set returns: the analysis-stage fields of the merged table (e.g. `sin_dec`, which only
+`prepare_data` creates) are present, and a live time exists (given or from the good-run list). -/
+theorem c17_i3_required_present (c : DsCfg N D) (expPaths mcPaths grlPaths : List P) (grlRen : List (N × N))
+    (livetime : Option V) (e m g : Option (Arr N D V)) (lt : Option V)
+    (h : i3LoadAndPrepare ops nm st loader prep c expPaths mcPaths grlPaths grlRen livetime = .ok (e, m, g, lt)) :
+    (∀ a, e = some a → ∀ r ∈ jointNames c.merged st.anExp, r ∈ a.cols.map (·.name)) ∧
+    (∀ a, m = some a → ∀ r ∈ jointNames c.merged (st.anExp ||| st.anMc), r ∈ a.cols.map (·.name)) ∧
+    lt.isSome = true := by
+  unfold i3LoadAndPrepare at h
+  cases hl : loadData st loader c expPaths mcPaths with
+  | error err => simp [hl] at h
+  | ok d =>
+    simp only [hl] at h
+    split at h
+    · simp at h
+    · rename_i grl hgrl
+      cases hp : i3Prepare ops nm prep d grl livetime with
+      | error err => simp [hp] at h
+      | ok r =>
+        obtain ⟨⟨e0, m0⟩, lt0⟩ := r
+        simp only [hp] at h
+        cases ha : assertFormat st c.merged (tidyOpt (jointNames c.merged st.anExp ++ c.keep) e0)
+            (tidyOpt (jointNames c.merged (st.anExp ||| st.anMc) ++ c.keep) m0) lt0.isSome with
+        | error err => simp [ha] at h
+        | ok u =>
+          simp only [ha, Except.ok.injEq, Prod.mk.injEq] at h
+          obtain ⟨he, hm, _, hlt⟩ := h
+          unfold assertFormat at ha
+          simp only at ha
+          refine ⟨?_, ?_, ?_⟩
+          · intro a hea
+            rw [← he] at hea
+            rw [hea] at ha
+            by_contra hcon
+            have : ¬ (missingKeys (a.cols.map (·.name)) (jointNames c.merged st.anExp) = []) := by
+              rw [C17.missing_nil_iff]; exact hcon
+            simp [this] at ha
+          · intro a hma
+            rw [← hm] at hma
+            rw [hma] at ha
+            by_contra hcon
+            have : ¬ (missingKeys (a.cols.map (·.name)) (jointNames c.merged (st.anExp ||| st.anMc)) = []) := by
+              rw [C17.missing_nil_iff]; exact hcon
+            split at ha <;> simp [this] at ha
+          · rw [← hlt]
+            by_contra hcon
+            have hf : lt0.isSome = false := by simpa using hcon
+            rw [hf] at ha
+            repeat' split at ha
+            all_goals simp_all
+
+/-- **No live time is an error**: without a given live time and without a good-run list
+`load_and_prepare_data` never returns. -/
+theorem c17_i3_no_livetime_is_error (c : DsCfg N D) (expPaths mcPaths : List P) (grlRen : List (N × N)) :
+    ∃ err, i3LoadAndPrepare ops nm st loader prep c expPaths mcPaths [] grlRen none = .error err := by
+  cases hres : i3LoadAndPrepare ops nm st loader prep c expPaths mcPaths [] grlRen none with
+  | error err => exact ⟨err, rfl⟩
+  | ok r =>
+    obtain ⟨e, m, g, lt⟩ := r
+    have hsome := (c17_i3_required_present ops nm st loader prep c expPaths mcPaths [] grlRen none e m g lt hres).2.2
+    -- but the live time of the result is the one computed by `i3Livetime none none = none`
+    exfalso
+    unfold i3LoadAndPrepare at hres
+    cases hl : loadData st loader c expPaths mcPaths with
+    | error err => simp [hl] at hres
+    | ok d =>
+      simp only [hl, List.isEmpty_nil, if_true] at hres
+      cases hp : i3Prepare ops nm prep d none none with
+      | error err => simp [hp] at hres
+      | ok r =>
+        obtain ⟨⟨e0, m0⟩, lt0⟩ := r
+        have hlt0 : lt0 = none := by
+          unfold i3Prepare at hp
+          simp only [i3Livetime] at hp
+          cases hq : prep d with
+          | error err => simp [hq] at hp
+          | ok em =>
+            obtain ⟨e1, m1⟩ := em
+            simp only [hq] at hp
+            split at hp
+            · simp at hp
+            · split at hp
+              · simp at hp
+              · simp only [Except.ok.injEq, Prod.mk.injEq] at hp
+                exact hp.2.symm
+        simp only [hp] at hres
+        split at hres
+        · simp at hres
+        · simp only [Except.ok.injEq, Prod.mk.injEq] at hres
+          rw [← hres.2.2.2, hlt0] at hsome
+          simp at hsome
+
+end i3
 
 /-! ### non-vacuity: concrete inputs meeting the hypotheses -/
 
